@@ -396,7 +396,7 @@ class Sim:
             pass
 
 
-FLAGS = ("guard", "clocks", "prev", "start", "gate", "err", "once", "idle")
+FLAGS = ("guard", "clocks", "prev", "start", "gate", "err", "once", "idle", "cancel2")
 
 
 def cfg_line(cfg: dict, mode: str) -> str:
@@ -500,8 +500,18 @@ def probe() -> dict[str, bool]:
     # idle: does an error with no run active leave System State Stopped
     _, _, r = execute({"method": "Mark: a", "ops": [["errapi"]]}, "c06", {})
     idle = r[-1]["state"] == "Stopped"
+    # cancel2: do Stop/Restart cancel once more in their second phase (/repo 90a68ba6) — a long user UOD command
+    # requested inside the two-tick stop window leaves no instance behind
+    sim = Sim("Mark: a")
+    try:
+        for op in [["user", "Start"], ["tick", 8, 8, 0], ["tick", 8, 8, 0], ["user", "Stop"], ["tick", 8, 8, 0],
+                   ["user", "L0"], ["tick", 8, 8, 0]]:
+            sim.do(op, "c08")
+        cancel2 = len(sim.e.uod.command_instances) == 0
+    finally:
+        sim.close()
     return {"guard": guard, "clocks": clocks, "prev": prev, "start": start, "gate": gate, "err": err,
-            "once": once, "idle": idle}
+            "once": once, "idle": idle, "cancel2": cancel2}
 
 
 # ---------------------------------------------------------------------------------------
